@@ -10,6 +10,7 @@ import (
 	"verif/vs"
 
 	"github.com/orbs-network/lean-helix-go/services/interfaces"
+	"github.com/orbs-network/lean-helix-go/spec/types/go/primitives"
 	"github.com/orbs-network/lean-helix-go/state"
 )
 
@@ -601,7 +602,9 @@ func init() {
 	// votes) reaching a node that is still in view 0; "pp" = a stand-alone PREPREPARE for view 5 from that view's
 	// leader. The node's (h1,v0) timer then expires. Whatever context the validator got must be cancelled by then or
 	// by a later timer: the call must not wait for ever (C15), the node must go on to time out (C19).
-	for _, kind := range []string{"nv", "pp"} {
+	// "nv2" = a NEW_VIEW TWO views ahead (view 2: leader member 2 is the node itself, so view 3 led by member 3 is used):
+	// whatever view the node has reached by then, the validation must run under a context some armed timer cancels.
+	for _, kind := range []string{"nv", "pp", "nv2"} {
 		kind := kind
 		registerBoth("S-validate-ahead-"+kind, []string{"C15", "C19"}, 2, 3, 4, func(x *X, cancel bool) {
 			n := newNode(x, 2)
@@ -610,14 +613,18 @@ func init() {
 			s := x.S
 			blk := kit.NewBlock(1, "B1")
 			var msg *interfaces.ConsensusRawMessage
-			if kind == "nv" {
+			if kind == "nv" || kind == "nv2" {
+				nvView, leader := primitives.View(1), 1
+				if kind == "nv2" {
+					nvView, leader = 3, 3
+				}
 				var votes []*interfaces.ViewChangeMessage
 				for _, i := range []int{0, 1, 3} {
-					votes = append(votes, n.fac(i, nil).CreateViewChangeMessage(1, 1, nil))
+					votes = append(votes, n.fac(i, nil).CreateViewChangeMessage(1, nvView, nil))
 				}
-				f := n.fac(1, nil)
-				ppb := f.CreatePreprepareMessageContentBuilder(1, 1, blk, kit.HashOf(blk))
-				msg = f.CreateNewViewMessage(1, 1, ppb, interfaces.ExtractConfirmationsFromViewChangeMessages(votes), blk).ToConsensusRawMessage()
+				f := n.fac(leader, nil)
+				ppb := f.CreatePreprepareMessageContentBuilder(1, nvView, blk, kit.HashOf(blk))
+				msg = f.CreateNewViewMessage(1, nvView, ppb, interfaces.ExtractConfirmationsFromViewChangeMessages(votes), blk).ToConsensusRawMessage()
 			} else {
 				msg = n.fac(1, nil).CreatePreprepareMessage(1, 5, blk, kit.HashOf(blk)).ToConsensusRawMessage()
 			}
